@@ -426,7 +426,7 @@ def walk_local(node):
     """ast.walk that does not descend into nested function/class definitions or lambdas."""
     body = getattr(node, "body", None)
     if isinstance(node, (ast.FunctionDef, ast.AsyncFunctionDef)):
-        stack = list(node.body)
+        stack = [c for c in node.body if not isinstance(c, (ast.FunctionDef, ast.AsyncFunctionDef, ast.ClassDef))]
     elif isinstance(node, ast.Lambda):
         stack = [node.body]
     else:
